@@ -24,7 +24,10 @@ EXPLANATION = (
     "return) before its first use as a subscript, directly or by the callee it is first handed to; (5) "
     "in functions taking a carquet_error_t*, every error exit that returns NULL or a fresh error "
     "code passes CARQUET_SET_ERROR or a callee that received the error object, and "
-    "carquet_error_set bounds its message with vsnprintf(CARQUET_ERROR_MESSAGE_MAX). Decides these "
+    "carquet_error_set bounds its message with vsnprintf(CARQUET_ERROR_MESSAGE_MAX); (6) every store of "
+    "NULL into a capacity-tracked buffer member (decoded_values/decoded_capacity, carquet_buffer data/"
+    "capacity) is followed by a store to the capacity member before the capacity is read again or the "
+    "function returns, so `need > capacity` re-allocation tests never trust a stale capacity. Decides these "
     "clauses, not arithmetic adequacy of every guard, total running time, nor leaks inside zlib/zstd.")
 
 PR = "src/reader/page_reader.c"
@@ -61,6 +64,12 @@ def run(ctx):
     ctx.clause("C04.3 reader functions release everything on every path")
     ctx.clause("C04.4 index arguments range-checked before use")
     ctx.clause("C04.5 error reports well-formed")
+    ctx.clause("C04.6 buffer pointers and their capacity fields move together")
+    from ..rules import capacity
+    ncap = capacity.check(ctx, P.funcs_under("src/reader/", "src/core/"),
+                          [("decoded_values", "decoded_capacity"), ("data", "capacity"),
+                           ("page_buffer", "page_buffer_capacity")])
+    ctx.floor("C04 NULL stores into capacity-tracked buffers", ncap, 8)
     # ---- (1a) mmap pointer formation
     nptr = 0
     for fn in P.funcs_under("src/reader/"):
